@@ -200,12 +200,8 @@ theorem trimmed_step (c : Cfg) (now : Int) (q q' : Q) (op : Op) (ch : Choice) (r
     · cases hstep
     next q1 hhk =>
       have h1 : ∀ m ∈ q1.msgs, T m := by
-        by_cases hmem : c.memory = true
-        · rw [if_pos hmem] at hhk
-          exact all_prune hhk (all_sweep c now q hq)
-        · rw [if_neg hmem] at hhk
-          obtain ⟨q0, hq0, rfl⟩ := Option.map_eq_some_iff.1 hhk
-          exact all_sweep c now q0 (all_prune hq0 hq)
+        obtain ⟨q0, hq0, rfl⟩ := Option.map_eq_some_iff.1 hhk
+        exact all_sweep c now q0 (all_prune hq0 hq)
       split at hstep
       · cases hstep
         intro m hm
